@@ -1202,8 +1202,16 @@ void reb_integrator_whfast_part2(struct reb_simulation* const r){
             p_j[index].y += r->dt/2.*p_j[index].vy;
             p_j[index].z += r->dt/2.*p_j[index].vz;
             reb_particles_transform_jacobi_to_inertial_posvel(particles_var1, p_j+index, particles, N_real, N_active);
+        }
+        if (r->calculate_megno){
+            // Accelerations of all variational particles, once all of them are synchronized.
+            // (Doing this inside the loop below would erase the terms already added to the earlier configurations.)
+            reb_calculate_acceleration_var(r);
+        }
+        for (int v=0;v<r->N_var_config;v++){
+            struct reb_variational_configuration const vc = r->var_config[v];
+            struct reb_particle* const particles_var1 = particles + vc.index;
             if (r->calculate_megno){
-                reb_calculate_acceleration_var(r);
                 const double dx = particles[0].x - particles[1].x;
                 const double dy = particles[0].y - particles[1].y;
                 const double dz = particles[0].z - particles[1].z;
